@@ -158,6 +158,10 @@ def check(ctx: Ctx) -> None:
     helper_obligations(ctx, "C04")
     html_algebra(ctx)
     exactly_once(ctx, m)
+    # consolidate_attrs hands the attributes on as stored (an HTML() value that came back as plain str would be escaped again)
+    from ..report import SharedCtx
+    from .c15 import partition_obligations
+    partition_obligations(SharedCtx(ctx, lambda r: "C04.consolidate" if r == "C15.consolidate" else None))
     # values displayed inside a `with tag:` block: the output of _repr_html_() is kept as HTML(), HTML() values stay HTML()
     from ..interp import Interp
     from .c17 import wrapper_table
